@@ -165,12 +165,12 @@ FINE_FILES = ('lightstreamer_adapter/server.py', 'lightstreamer_adapter/subscrip
               'lightstreamer_adapter/data_protocol.py', 'lightstreamer_adapter/metadata_protocol.py')
 
 
-def run_scenario(sc, chooser, eager=('writer',), max_steps=6000, probe=True, fine=False, fine_seed=0):
+def run_scenario(sc, chooser, eager=('writer',), max_steps=6000, probe=True, fine=False, fine_seed=0, fine_p=0.12):
     """-> Run with: status, trace, events, calls, lis, lines (queue order), sent (bytes), final (dict), taken.
     fine: every source line of server.py / subscription.py is a preemption point (oracle-only runs)"""
     from lightstreamer_adapter.server import DataProviderServer
     import wire
-    S = dsched.Sched(fine=FINE_FILES if fine else None, fine_seed=fine_seed)
+    S = dsched.Sched(fine=FINE_FILES if fine else None, fine_seed=fine_seed, fine_p=fine_p)
     if fine:
         max_steps = max_steps * 8
     log = {'calls': [], 'lis': [], 'sizes': {int(k): v for k, v in sc.sizes.items()}}
